@@ -112,6 +112,10 @@ class TypeOverwriting(Transformation):
                 for i, t_param in enumerate(type_parameters)
             }
             n.t.type_args[indexes[type_param.t]] = ir_type
+            # The overwritten type argument must appear in the program: if a
+            # previous type erasure has marked the type arguments of this
+            # instantiation as inferable, make them explicit again.
+            n.t.can_infer_type_args = False
         self.is_transformed = True
         self.error_injected = "{} expected but {} found in node {}".format(
             str(old_type), str(ir_type), n.node_id)
